@@ -337,6 +337,7 @@ class Circuit:
     def remove_dangling_nodes(self, root_node:Node):
         if len([l for l in root_node.outs if l is not None]) > 0: return
         if 'dff' in root_node.kind.lower() or 'latch' in root_node.kind.lower(): return  # state elements stay (they are part of s_nodes)
+        if any(root_node is n for n in self.io_nodes): return  # ports stay as well
         lines = [l for l in root_node.ins if l is not None]
         drivers = [l.driver for l in lines]
         root_node.remove()
